@@ -584,7 +584,7 @@ def emit_lean(layout, ns, outdir):
 
     # ---- Misc
     misc = layout["misc"]
-    out = ["import TpmModel.Basic", f"/-! generated by tools/translate.py — do not edit -/", f"namespace {ns}", ""]
+    out = ["import TpmModel.Prim", f"/-! generated by tools/translate.py — do not edit -/", f"namespace {ns}", ""]
     cap = misc["cache_capacity"]
     if cap == "unbounded":
         capl = ".unbounded"
@@ -594,7 +594,6 @@ def emit_lean(layout, ns, outdir):
         capl = f"(.bounded {cap})"
     else:
         capl = f"(.opaque {lstr(str(cap))})"
-    out.append("inductive CacheCap where\n  | absent | unbounded | bounded (n : Nat) | opaque (s : String)\n  deriving DecidableEq, Repr")
     out.append(f"/-- decorator of `TPMS_PARAMS.encrypted` -/\ndef cacheCapacity : CacheCap := {capl}")
     out.append("/-- the dunder methods installed by `numeric()`: (name, operator, operand order, installed by setattr) -/")
     out.append("def numericOps : List (String × String × String × Bool) := [" +
@@ -613,6 +612,9 @@ def emit_lean(layout, ns, outdir):
     for nm, m in rc["maps"].items():
         out.append(f"def {nm} : List (Nat × String) := [" + ", ".join(f"({k}, {lstr(v)})" for k, v in m["entries"]) + "]")
         out.append(f"def {nm}_default : Option String := " + ("none" if m["default"] is None else f"some {lstr(m['default'])}"))
+    out.append("def rcTables : RcTables :=\n  { consts := rcConsts,\n    fmt0Err := TPM_RC_FMT0_ERROR_MAP, fmt0ErrDefault := TPM_RC_FMT0_ERROR_MAP_default,\n"
+               "    fmt1 := TPM_RC_FMT1_MAP, fmt1Default := TPM_RC_FMT1_MAP_default,\n"
+               "    fmt0Warn := TPM_RC_FMT0_WARN_MAP, fmt0WarnDefault := TPM_RC_FMT0_WARN_MAP_default }")
     out.append(f"end {ns}")
     files["Misc.lean"] = "\n".join(out) + "\n"
 
